@@ -4,7 +4,7 @@
    [lift] is the mirror of build_basic_blocks (Model.Lift); [path], [reachable],
    [dominates], [nesting], [graph_items], [parser_shaped] are Spec.CfgSpec. *)
 From stdpp Require Import list.
-Require Import Model.Lift Spec.CfgSpec Proofs.LiftTheorems Proofs.LiftTotal.
+Require Import Model.Lift Spec.CfgSpec Proofs.LiftTheorems Proofs.LiftTotal Proofs.LiftComplexity.
 Import Base(outcome, Ok, Panic).
 
 (* block 0 is the entry (a block's index is its position) and has no predecessor *)
@@ -63,6 +63,21 @@ Theorem C12_descending_path : forall body g, lift body = Ok g ->
   forall j, j < length g -> exists l, path g 0 l j /\ forall x, x ∈ 0 :: l -> x <= j.
 Proof. exact descending_path. Qed.
 Print Assumptions C12_descending_path.
+
+(* the counting step for program_analysis/src/definition_complexity.rs
+   (`let complexity = 2 + edges - nodes;` on usize, edges = sum of
+   `successors().len()` over the blocks, nodes = number of blocks): the blocks
+   are at most one more than the edges, so (2 + edges) - nodes does not
+   underflow and the complexity is at least 1.  Proved from
+   C12_descending_path: every block j > 0 ends a non-empty path from block 0,
+   so it is the target of an edge, and edges with different targets are
+   different members of the successor lists (which are duplicate-free by
+   C12_at_most_two_succs, so their lengths are the set sizes the code adds up) *)
+Theorem C12_complexity_no_underflow : forall body g, lift body = Ok g ->
+  length g <= 1 + list_sum (map (fun b => length (b_succs b)) g) /\
+  1 <= 2 + list_sum (map (fun b => length (b_succs b)) g) - length g.
+Proof. exact complexity_no_underflow. Qed.
+Print Assumptions C12_complexity_no_underflow.
 
 (* the statements of the graph in block order, each with the recorded loop
    depth of its block, are exactly the statements and conditions of the source
